@@ -1011,3 +1011,24 @@ func (c *Corpus) LongRepeats(r *vlib.Rand, seed []byte, k int, maxTotal int) (ou
 	}
 	return
 }
+
+// WordSweepValues are 16-bit values just below the wrap (a length that some "+4" turns into 0..3), around the sign bit,
+// and one past a byte.
+var WordSweepValues = []uint16{0xfff8, 0xfffb, 0xfffc, 0xfffd, 0xfffe, 0xffff, 0x7fff, 0x8000, 0x0100}
+
+// WordSweep returns seed with the big-endian 16-bit word at every byte offset below maxPos replaced, in turn, by every
+// word sweep value: the systematic form of the "length near the wrap" mutation (arithmetic done in the width of the
+// field wraps to a tiny step or size).
+func (c *Corpus) WordSweep(seed []byte, maxPos int) (out [][]byte) {
+	for p := 0; p+2 <= len(seed) && p < maxPos; p++ {
+		for _, v := range WordSweepValues {
+			if binary.BigEndian.Uint16(seed[p:]) == v {
+				continue
+			}
+			b := append([]byte{}, seed...)
+			binary.BigEndian.PutUint16(b[p:], v)
+			out = append(out, b)
+		}
+	}
+	return
+}
